@@ -21,9 +21,9 @@ HEAVY = {'_heavy': 1, '_mem_gb': 16, '_time': 2400}
 def CLI(ns, ranks, rename, **kw):
     # the path of `vata sim`: arbitrary (sparse) concrete numbers, ReindexStates first, its state count passed on
     return U(ns, ranks, VIA_REINDEX=None, RENAME='{%s}' % ','.join(str(x) for x in rename), **kw)
-DOWN_Q = [U(2, [0, 1], DIR=0), U(2, [0, 0, 1], DIR=0), U(2, [0, 2], DIR=0), U(2, [1, 2], DIR=0), U(3, [0, 1], DIR=0), U(2, [0, 1, 2], DIR=0),
+DOWN_Q = [U(3, [0, 1], DIR=0, COPYREL=None), U(2, [0, 1], DIR=0), U(2, [0, 0, 1], DIR=0), U(2, [0, 2], DIR=0), U(2, [1, 2], DIR=0), U(3, [0, 1], DIR=0), U(2, [0, 1, 2], DIR=0),
           CLI(2, [0, 2], [6, 1], DIR=0), CLI(3, [0, 1], [7, 0, 3], DIR=0, PERM=0)]
-UP_Q   = [U(2, [0, 1], DIR=1), U(2, [0, 0, 1], DIR=1), U(2, [0, 2], DIR=1), U(2, [0, 1, 1], DIR=1), U(3, [0, 1], DIR=1), U(2, [0, 0, 2], DIR=1),
+UP_Q   = [U(3, [0, 1], DIR=1, COPYREL=None), U(2, [0, 1], DIR=1), U(2, [0, 0, 1], DIR=1), U(2, [0, 2], DIR=1), U(2, [0, 1, 1], DIR=1), U(3, [0, 1], DIR=1), U(2, [0, 0, 2], DIR=1),
           CLI(2, [0, 2], [6, 1], DIR=1), CLI(3, [0, 1], [7, 0, 3], DIR=1, PERM=0)]
 DOWN_T = DOWN_Q + [CLI(2, [0, 1, 2], [9, 4], DIR=0, PERM=0), U(2, [0, 0, 1, 2], DIR=0), U(3, [0, 0, 1], DIR=0), U(3, [0, 2], DIR=0, RMASK=G3_ASC), U(3, [0, 2], DIR=0, RMASK=G3_DIAG)]
 # upward with 3 states and a binary symbol: concrete numberings (PERMFIX = index of the permutation), because the symbolic
